@@ -653,12 +653,20 @@ func (db *DB) tableRangeCompaction(level int, umin, umax []byte) error {
 }
 
 func (db *DB) tableAutoCompaction() {
+	if db.isReadOnly() {
+		return
+	}
 	if c := db.s.pickCompaction(); c != nil {
 		db.tableCompaction(c, false)
 	}
 }
 
 func (db *DB) tableNeedCompaction() bool {
+	if db.isReadOnly() {
+		// A read-only DB serves reads but must not rewrite its tables, e.g.
+		// because a read used up the seek allowance of a table.
+		return false
+	}
 	v := db.s.version()
 	defer v.release()
 	return v.needCompaction()
